@@ -403,6 +403,11 @@ class Exec:
             if frag and kind in ("fall", "continue"):
                 kind, payload = "return", (FragResult(dict(st2.env)), getattr(body[-1], "end_lineno", body[-1].lineno))
             self.finish(kind, st2, payload, fn)
+        table = getattr(c.cls, "after", None)
+        if table:
+            missing = [k for k in table if k not in getattr(self, "_after_seen", set())]
+            if missing:
+                raise Unsupported(f"statements named by the contract's ghost code are not in the function (any more): {missing}")
         return self.obls
 
     def eval_requires(self, c, params):
@@ -464,6 +469,41 @@ class Exec:
                 yield (kind, st2, payload)
 
     def exec_stmt(self, node, st):
+        after = self.after_for(node)
+        if after is None:
+            yield from self.exec_stmt0(node, st)
+            return
+        for kind, st2, payload in self.exec_stmt0(node, st):
+            if kind == "fall":
+                self.apply_after(after, st2, node)
+            yield (kind, st2, payload)
+
+    def after_for(self, node):
+        """ghost code / proof hints attached by the contract to the program point *after* a statement of the real
+        function, located by the source text of the statement's first line (`after = {text: (ghost_names, fn)}`)."""
+        table = getattr(self.c.cls, "after", None)
+        if not table:
+            return None
+        if not hasattr(self, "_after_seen"):
+            self._after_seen = set()
+        key = ast.unparse(node).splitlines()[0].strip()
+        ent = table.get(key)
+        if ent is not None:
+            self._after_seen.add(key)
+        return ent
+
+    def apply_after(self, ent, st, node):
+        names, fn = ent
+        r = fn(NS(st.env, self.ghosts)) or {}
+        hints = r.pop("__hints__", None) if isinstance(r, dict) else None
+        if hints:
+            self.apply_hints(st, hints, f"after@{self.rel_line(node)}", node.lineno)
+        for g, val in r.items():
+            if g not in names:
+                raise Unsupported(f"ghost {g!r} assigned after line {node.lineno} is not declared for that point")
+            st.env[g] = wrap(val)
+
+    def exec_stmt0(self, node, st):
         self.covered.add(node.lineno)
         m = getattr(self, "stmt_" + type(node).__name__, None)
         if m is None:
@@ -540,6 +580,10 @@ class Exec:
             return out
         if attr == "reverse" and isinstance(base, SeqV):
             return SeqV(S.f_rev(base.t), base.kind)
+        if attr == "pop" and isinstance(base, SeqV) and base.kind == "list" and not args:
+            n = S.f_len(base.t)
+            self.oblige(st, "safe", "pop-nonempty", n > 0, node.lineno, note="pop from an empty list raises IndexError")
+            return SeqV(S.f_slice(base.t, z3.IntVal(0), n - 1), "list")
         if attr == "reverse" and isinstance(base, TupV):
             return TupV(base.items[::-1], base.kind)
         if attr == "insert" and isinstance(base, TupV) and base.kind == "list" and isinstance(args[0], Opt):
@@ -879,8 +923,13 @@ class Exec:
 
     def assigned_names(self, stmts):
         names = set()
+        table = getattr(self.c.cls, "after", None) or {}
         for s in stmts:
             for n in ast.walk(s):
+                if table and isinstance(n, ast.stmt):
+                    ent = table.get(ast.unparse(n).splitlines()[0].strip())
+                    if ent is not None:
+                        names.update(ent[0])
                 if isinstance(n, (ast.Assign, ast.AugAssign, ast.AnnAssign)):
                     tgts = n.targets if isinstance(n, ast.Assign) else [n.target]
                     for t in tgts:
@@ -916,6 +965,12 @@ class Exec:
         itv = self.iter_symbolic(it, st, node)  # (n, elem(k) -> value, extra_assume(k))
         n = itv["n"]
         entry = st
+        outer_it = st.env.get("it")  # an enclosing loop's iteration index is visible again after this loop
+
+        def leave(env):
+            env.pop("it", None)
+            if outer_it is not None:
+                env["it"] = outer_it
         v0 = NS(dict(entry.env), self.ghosts)
         mods = sorted(x for x in self.assigned_names(node.body) if x in entry.env)
         # ghost initialisation
@@ -957,7 +1012,7 @@ class Exec:
                 if kind in ("fall", "continue"):
                     self.loop_back(spec, lid, node, s2, head_env, v0, k + 1, genv)
                 elif kind == "break":
-                    s2.env.pop("it", None)
+                    leave(s2.env)
                     yield ("fall", s2, None)
                 else:
                     yield (kind, s2, payload)
@@ -965,7 +1020,7 @@ class Exec:
         s, k = head_state("x")
         s.pc.append(k == n)
         s.trail.append((node.lineno, "exit"))
-        s.env.pop("it", None)
+        leave(s.env)
         if self.feasible(s):
             yield ("fall", s, None)
 
@@ -975,7 +1030,8 @@ class Exec:
             upd = spec.ghost_update(NS(head_env, self.ghosts), NS(e, self.ghosts))
             for g, val in upd.items():
                 e[g] = wrap(val)
-        e["it"] = I(nextk)
+        if nextk is not None:
+            e["it"] = I(nextk)  # a while loop has no iteration index of its own: an enclosing for loop's `it` stays visible
         if spec.hints:
             self.apply_hints(s2, spec.hints(NS(head_env, self.ghosts), NS(e, self.ghosts)), f"{lid}", node.lineno)
         for x, hv in head_env.items():
@@ -1167,7 +1223,7 @@ class Exec:
             if self.feasible(sb):
                 for kind, s2, payload in self.exec_block(node.body, sb):
                     if kind in ("fall", "continue"):
-                        self.loop_back(spec, lid, node, s2, head_env, v0, z3.IntVal(0), genv)
+                        self.loop_back(spec, lid, node, s2, head_env, v0, None, genv)
                         if spec.decreases:
                             e = dict(s2.env)
                             if spec.ghost_update:
